@@ -280,6 +280,10 @@ func Gen(t *rapid.T, o Opts) Spec {
 			nEx = rapid.IntRange(254, 258).Draw(t, "nexedge")
 		}
 		maxData = 8
+	case shape == 4 && o.ManyExtra:
+		// counts around the multiples of 256 (one more record - a TSIG or SIG - carries into the high octet of ARCOUNT)
+		nEx = rapid.SampledFrom([]int{255, 255, 255, 256, 511, 511, 512, 767}).Draw(t, "nexcarry")
+		maxData = 8
 	case shape == 1 && o.Big:
 		maxData = rapid.SampledFrom([]int{2000, 8000, 16000, 20000}).Draw(t, "big")
 		nAn, nNs = max(nAn, 1), max(nNs, 1)
